@@ -37,6 +37,25 @@ THEOREMS = [
     "SyneTune.C07.decode_wrong_length",
     "SyneTune.C07.decode_rejects_outside",
     "SyneTune.C07.encode_cube",
+    "SyneTune.C07.bounds_in_cube",
+    "SyneTune.C07.roundtrip_partial",
+    "SyneTune.C07.scalingHyp_lin",
+    "SyneTune.C07.roundtrip_linear",
+    "SyneTune.C07.roundtrip_logfin_castint_counterexample",
+    "SyneTune.C07.active_partial",
+    "SyneTune.C07.active_onehot_partial",
+    "SyneTune.C07.active_onehot_counterexample",
+    "SyneTune.C07.sample_member_partial",
+    "SyneTune.C07.qrandint_partial",
+    "SyneTune.C07.qrandint_counterexample",
+    "SyneTune.C07.sample_list_quantised_int_counterexample",
+    "SyneTune.C07.nn_single_sample_counterexample",
+    "SyneTune.C07.nn_single_encoder_counterexample",
+    "SyneTune.C07.cast_member",
+    "SyneTune.C07.cast_member_id",
+    "SyneTune.C07.json_roundtrip_partial",
+    "SyneTune.C07.json_rlog_counterexample",
+    "SyneTune.C07.json_quantized_counterexample",
 ]
 
 
@@ -51,6 +70,7 @@ def corpus():
         one({"k": "qrandint", "lo": 1, "hi": 10, "q": 4}),                                      # F6
         one({"k": "choice", "cats": ["a", "b", "c", "d"]}, {"k": "choice", "cats": ["b", "c"]}),  # F7
         one({"k": "reverseloguniform", "lo": 0.1, "hi": 0.9}),
+        one({"k": "reverseloguniform", "lo": 0.0, "hi": 1e-10}),
         one({"k": "ordinal", "cats": [5], "kind": "nn"}),
         one({"k": "ordinal", "cats": [3.0], "kind": "nn-log"}),
         one({"k": "randint", "lo": 134250960, "hi": 134250962}, {"k": "randint", "lo": 134250960, "hi": 134250961}),
@@ -99,6 +119,7 @@ COUNTEREXAMPLE_SIGNATURES = {
     "SyneTune.C07.nn_single_sample_counterexample": "c07:ordinal-nn-single-category-sample-raises",
     "SyneTune.C07.nn_single_encoder_counterexample": "c07:ordinal-nn-single-category-not-encodable",
     "SyneTune.C07.sample_list_quantised_int_counterexample": "c07:qrandint-sample-list-not-int",
+    "SyneTune.C07.roundtrip_logfin_castint_counterexample": "c07:logfinrange-castint-roundtrip-changes-value",
 }
 
 
